@@ -197,8 +197,18 @@ impl BufferManager {
 
         #[cfg(grafeo_verif)]
         crate::verif::yield_point("buf.alloc.add");
-        // Perform allocation
-        self.allocated.fetch_add(size, Ordering::Relaxed);
+        // Perform allocation, re-checking the hard limit atomically: another thread may
+        // have allocated between the check above and this point.
+        let hard_limit = self.hard_limit;
+        if self
+            .allocated
+            .fetch_update(Ordering::Relaxed, Ordering::Relaxed, |cur| {
+                cur.checked_add(size).filter(|n| *n <= hard_limit)
+            })
+            .is_err()
+        {
+            return None;
+        }
         self.region_allocated[region.index()].fetch_add(size, Ordering::Relaxed);
 
         // Check pressure and potentially trigger background eviction
